@@ -10,7 +10,7 @@
 From Coq Require Import String.
 From Coq Require Import List ZArith Bool.
 Import ListNotations.
-From TV Require Import Lib.Obs C10.Model C10.Run C10.RunClient C10.Proofs C10.Proofs3 C10.Proofs7 C10.Proofs11 C10.ProofsClient.
+From TV Require Import Lib.Obs C10.Model C10.Run C10.RunClient C10.Proofs C10.Proofs3 C10.Proofs7 C10.Proofs11 C10.ProofsClient C10.RunP4 C10.ProofsP4.
 
 (* (INV-1) The future is resolved at most once and never changes afterwards;
    no attempt is started after resolution. *)
@@ -211,6 +211,66 @@ Theorem C10_client_checker_accepts_model :
   forall i, check_case2 i (run_case2 i) = true.
 Proof. exact client_checker_accepts_model. Qed.
 Print Assumptions C10_client_checker_accepts_model.
+
+(* ---------- phase 4: source_ip / source_port and the ssl_options hand-off ---------- *)
+
+(* (SRC-1) TCPClient._create_stream binds the socket of each attempt: an address whose family
+   cannot be bound to the given source_ip is a raising attempt (no stream) of the same family;
+   all other addresses, and every address under source_port alone or no source, are unchanged. *)
+Theorem C10_source_binding_is_raising_attempts :
+  forall s addrs a f o, nth_error addrs a = Some (f, o) ->
+    nth_error (apply_source s addrs) a = Some (if bind_fails s f then (f, ORaises) else (f, o)) /\
+    apply_source SrcNone addrs = addrs /\ apply_source SrcPort addrs = addrs /\
+    length (apply_source s addrs) = length addrs.
+Proof.
+  intros s addrs a f o H. repeat split.
+  - apply apply_source_nth; exact H.
+  - apply apply_source_none.
+  - apply apply_source_port.
+  - apply apply_source_length.
+Qed.
+Print Assumptions C10_source_binding_is_raising_attempts.
+
+(* (SRC-2) The connector-level guarantees are unaffected by source binding: for every source
+   option, address list and schedule, no leak / exactly-once / one attempt per family / liveness
+   hold of the run over the bound address list (instances of the theorems above). *)
+Theorem C10_guarantees_unaffected_by_source_binding :
+  forall src addrs has_ct es, addrs <> [] ->
+    let s := run (apply_source src addrs) has_ct es in
+    (is_done s = false -> closes s = []) /\
+    (forall w, fut s = FOk w -> ~ In w (closes s) /\
+       forall a, In a (started s) -> raises_of (apply_source src addrs) a = false -> a <> w -> In a (closes s)) /\
+    (fut s = FTimeout -> forall a, In a (started s) -> raises_of (apply_source src addrs) a = false -> In a (closes s)) /\
+    NoDup (map (fam_of (apply_source src addrs)) (ifl s)) /\
+    (infl s = [] -> tmo_armed s = false -> is_done s = true) /\
+    (forall es2, is_done s = true -> fut (run (apply_source src addrs) has_ct (es ++ es2)) = fut s).
+Proof.
+  intros src addrs has_ct es Hn. pose proof (apply_source_nonempty src addrs Hn) as Hn'.
+  destruct (no_leak _ Hn' has_ct es) as [L1 [L2 [L3 _]]]. cbv zeta. repeat split; auto.
+  - apply (L2 w H).
+  - intros a Ha Hr Hw. apply (L2 w H); auto.
+  - apply one_per_family; auto.
+  - apply quiescent_is_resolved; auto.
+  - intros es2 D. apply (resolved_once (apply_source src addrs) has_ct es D es2).
+Qed.
+Print Assumptions C10_guarantees_unaffected_by_source_binding.
+
+(* (TLS, recorded as outside the property - DESIGN.md) When ssl_options is given, a timeout is
+   given, the connector succeeds and the handshake never completes, the caller gets TimeoutError
+   while the winning stream has been closed by nobody: a witness, not a guarantee. *)
+Theorem C10_tls_timeout_leaves_stream_open_refuted :
+  exists i, exists o1, run_case3 i = OList [o1; OList [OTag "Timeout"%string; OBool true]] /\
+    fut (run [(4, OSuccess)] true []) = FOk 0 /\ closes (run [(4, OSuccess)] true []) = [].
+Proof.
+  exists (SrcNone, TlsNever, (Client TNumber RNow, ([(4, OSuccess)], true, []))).
+  exists (run_case ([(4, OSuccess)], true, [])). exact tls_timeout_witness.
+Qed.
+Print Assumptions C10_tls_timeout_leaves_stream_open_refuted.
+
+(* (P4-CHECK) the checker through every entry point / option accepts the model, for every input *)
+Theorem C10_p4_checker_accepts_model : forall i, check_case3 i (run_case3 i) = true.
+Proof. exact checker3_accepts_model. Qed.
+Print Assumptions C10_p4_checker_accepts_model.
 
 (* The hypotheses are satisfiable and the statements are not vacuous: a run in which
    the secondary family wins, the late primary success is closed, nothing leaks. *)
